@@ -15,7 +15,7 @@ import txdbus.client
 from txdbus import message, interface, introspection
 
 ACTIONS = {'EpFail': ('why',), 'EpOk': (), 'AuthOk': (), 'AuthRefused': (), 'HelloOk': (), 'HelloErr': (), 'Close': (), 'Quiet': (),
-           'IssueCall': ('k', 't'), 'ReplyCall': ('k',), 'ExpireCall': ('k',), 'Register': ('x', 'w'), 'DropProxy': ('x',)}
+           'IssueCall': ('k', 't'), 'ReplyCall': ('k',), 'ExpireCall': ('k',), 'CancelCall': ('k',), 'Register': ('x', 'w'), 'DropProxy': ('x',)}
 OBS = ['tried', 'fired', 'nfired', 'call', 'timers', 'ran', 'late']
 KINDS = ['unix:path=/tmp/verif-sock-%d', 'unix:abstract=verif%d', 'tcp:host=h%d.example,port=%d',
          'nonce-tcp:host=n%d.example,port=%d,noncefile=/x']
@@ -163,6 +163,8 @@ class ConnDriver:
             kw['timeout'] = 500 + 7 * k
         d = self.conn.callRemote('/o', 'M%d' % k, interface='org.ex.I', destination='org.ex.D', **kw)
         d.addCallbacks(lambda v, k=k: self._callres(k, 'ok'), lambda f, k=k: self._callres(k, f))
+        self.calld = getattr(self, 'calld', {})
+        self.calld[k] = d
         out = fakes.parse_all(self.t.take())
         self.serial = getattr(self, 'serial', {})
         self.serial[k] = out[0].serial
@@ -172,8 +174,10 @@ class ConnDriver:
             self.late += 1
         if what != 'ok':
             from txdbus import error as txerror
+            from twisted.internet import defer as _defer
             what = 'lost' if what is getattr(self, 'reason', None) else \
-                'timeout' if isinstance(what.value, txerror.TimeOut) else 'other:' + type(what.value).__name__
+                'timeout' if isinstance(what.value, txerror.TimeOut) else \
+                'cancelled' if isinstance(what.value, _defer.CancelledError) else 'other:' + type(what.value).__name__
         self.callres[k].append(what)
 
     def do_ExpireCall(self, k):
@@ -183,6 +187,9 @@ class ConnDriver:
         dcs[0].reset(0)
         self.target[k] = self.r.seconds()
         self.r.advance(0)
+
+    def do_CancelCall(self, k):
+        self.calld[k].cancel()
 
     def do_ReplyCall(self, k):
         r = message.MethodReturnMessage(self.serial[k], destination=':1.42')
@@ -352,7 +359,10 @@ def run(tier, seed):
                         elif r < 0.4 and out:
                             k = rng.choice(out)
                             timed = [kk for kk in out if kk in drv.target]
-                            if k in drv.target and rng.random() < 0.5:
+                            r2 = rng.random()
+                            if r2 < 0.25:
+                                a = ('CancelCall', (k,))
+                            elif k in drv.target and r2 < 0.6:
                                 a = ('ExpireCall', (k,))
                             else:
                                 a = ('ReplyCall', (k,))
